@@ -1,0 +1,57 @@
+//go:build verif
+// +build verif
+
+// Package verifhook holds observation points used by the external
+// verification harness. With the "verif" build tag each function forwards
+// to a settable function variable (nil means: do nothing).
+package verifhook
+
+import "unsafe"
+
+var (
+	OnPoint      func(id int, addr unsafe.Pointer, write bool)
+	OnSlot       func(base uintptr, idx uint32, store bool)
+	OnSlotRegion func(data unsafe.Pointer, n int)
+	OnEncBind    func(typeptr uintptr, setType unsafe.Pointer)
+	OnDecBind    func(index int, typeptr uintptr)
+	Exact        bool
+
+	// Describers turn pooled library objects into a canonical text.
+	Describers []func(v interface{}) (string, bool)
+	// Resetters drop every cache of the package that registered them.
+	Resetters []func()
+	// Dumpers describe the global state of the package that registered them.
+	Dumpers []func() string
+)
+
+func Point(id int, addr unsafe.Pointer, write bool) {
+	if OnPoint != nil {
+		OnPoint(id, addr, write)
+	}
+}
+
+func Slot(base uintptr, idx uint32, store bool) {
+	if OnSlot != nil {
+		OnSlot(base, idx, store)
+	}
+}
+
+func SlotRegion(data unsafe.Pointer, n int) {
+	if OnSlotRegion != nil {
+		OnSlotRegion(data, n)
+	}
+}
+
+func EncBind(typeptr uintptr, setType unsafe.Pointer) {
+	if OnEncBind != nil {
+		OnEncBind(typeptr, setType)
+	}
+}
+
+func DecBind(index int, typeptr uintptr) {
+	if OnDecBind != nil {
+		OnDecBind(index, typeptr)
+	}
+}
+
+func ExactPtrs() bool { return Exact }
